@@ -15,6 +15,7 @@ import (
 // roles (catch / errch) of pipe.F / pipe.FF / fork.F / fork.FF.
 type catchImpl struct {
 	TypeName string
+	Named    *types.Named
 	Catch    *ssa.Function
 	Errch    *ssa.Function
 	// catch summary
@@ -49,7 +50,7 @@ func catchImpls(c *core.Ctx, pkg string) []*catchImpl {
 		if !ok {
 			continue
 		}
-		ci := &catchImpl{TypeName: pkgShort(pkg) + "." + n}
+		ci := &catchImpl{TypeName: pkgShort(pkg) + "." + n, Named: named}
 		for i := 0; i < named.NumMethods(); i++ {
 			m := named.Method(i)
 			sig := m.Type().(*types.Signature)
